@@ -378,6 +378,67 @@ def runPass (nums : Nums) (evs : List Ev) : List Msg :=
   let r := runEvs nums init evs
   r.2 ++ passExit nums r.1
 
+/-! ### the same machine under the options that hide messages
+
+`WrXErrorPos` first looks the number up in the pending expectations (and returns when it was announced), only then the two
+early-outs `!CodeOutput && Num == ErrNum_UnknownInstruction` (`+G`) and `SuppWarns && Num < 1000` (`-w`) are tested: a
+hidden message still consumes its expectation.  The definitions above are the machine with neither option; the ones below
+are the transcription with both tests in place. -/
+
+structure Hide where
+  suppWarns : Bool
+  noCode : Bool
+  unknownInstruction : Nat
+deriving Repr
+
+def Hide.hides (h : Hide) (n : Nat) : Bool :=
+  (h.noCode && n == h.unknownInstruction) || (h.suppWarns && decide (n < 1000))
+
+/-- the number a message is written under -/
+def Msg.num (nums : Nums) : Msg → Nat
+  | .msg n => n
+  | .missing _ => nums.expectedError
+
+def wrXH (h : Hide) (s : St) (n : Nat) (m : Msg) : St × List Msg :=
+  match findAndTake n s.pending with
+  | some p => ({ s with pending := p }, [])
+  | none => if h.hides n then (s, []) else (s, [m])
+
+def drainH (h : Hide) (nums : Nums) : Nat → St → St × List Msg
+  | 0, s => (s, [])
+  | fuel + 1, s =>
+    match s.pending with
+    | [] => (s, [])
+    | a :: l =>
+      let r := wrXH h { s with pending := l } nums.expectedError (.missing a)
+      let q := drainH h nums fuel r.1
+      (q.1, r.2 ++ q.2)
+
+def stepH (h : Hide) (nums : Nums) (s : St) : Ev → St × List Msg
+  | .occur n => wrXH h s n (.msg n)
+  | .expect ns =>
+    if s.inExpect then wrXH h s nums.noNestExpect (.msg nums.noNestExpect)
+    else ({ inExpect := true, pending := ns.foldl (fun acc n => n :: acc) s.pending }, [])
+  | .endexpect =>
+    if !s.inExpect then wrXH h s nums.missingExpect (.msg nums.missingExpect)
+    else
+      let r := drainH h nums s.pending.length s
+      ({ r.1 with inExpect := false }, r.2)
+
+def runEvsH (h : Hide) (nums : Nums) : St → List Ev → St × List Msg
+  | s, [] => (s, [])
+  | s, e :: es =>
+    let r := stepH h nums s e
+    let q := runEvsH h nums r.1 es
+    (q.1, r.2 ++ q.2)
+
+def passExitH (h : Hide) (nums : Nums) (s : St) : List Msg :=
+  if s.inExpect then (wrXH h s nums.missingEndExpect (.msg nums.missingEndExpect)).2 else []
+
+def runPassH (h : Hide) (nums : Nums) (evs : List Ev) : List Msg :=
+  let r := runEvsH h nums init evs
+  r.2 ++ passExitH h nums r.1
+
 end Exp
 
 end AslModel.Pos
